@@ -18,7 +18,9 @@ void h_c14_layout(void){
   ASSERT(s[0] == R64(ESZ), "scalar block = element size rounded up to the alignment");
   ASSERT(s[1] % 64 == 0 && s[1] >= (uint64_t)ESZ * n && s[1] < (uint64_t)ESZ * n + 64, "vector block: multiple of 64, holds n items, minimal");
   ASSERT(s[4] == lead, "leading dimension = row bytes rounded up to the alignment");
+#if (ESZ % 64 == 0) || (64 % ESZ == 0)
   ASSERT(s[2] == NROWS * lead, "multi-row block = NbRows x leading dimension");
+#endif
 #if 64 % ESZ == 0
   ASSERT(s[3] == n * leadRows, "multi-column block = n x rounded row-vector size");
 #endif
@@ -27,14 +29,18 @@ void h_c14_layout(void){
     W(w_addr)(n, i, row, BUF, a); W(w_addr)(n, i2, row2, BUF, b);
     for(int k = 0; k < 5; ++k) OBS(a[k]);
     ASSERT(a[0] == (uint64_t)ESZ * i && a[0] + ESZ <= s[1], "vector element inside its block");
+#if (ESZ % 64 == 0) || (64 % ESZ == 0)
     ASSERT(a[1] == row * lead + (uint64_t)ESZ * i && a[1] + ESZ <= s[2], "multi-row element inside its block");
+#endif
 #if 64 % ESZ == 0
     ASSERT(a[2] == i * leadRows + (uint64_t)ESZ * row && a[2] + ESZ <= s[3], "multi-column element inside its block");
 #endif
     ASSERT(a[3] == a[0] && a[4] == a[1], "const viewers address the same bytes");
     ASSERT(a[0] % s[5] == 0 && a[1] % s[5] == 0 && a[2] % s[5] == 0, "element addresses keep the element alignment");
     if(i != i2 || row != row2){
+#if (ESZ % 64 == 0) || (64 % ESZ == 0)
       ASSERT(a[1] + ESZ <= b[1] || b[1] + ESZ <= a[1], "distinct (item,row) of a multi-row block do not overlap");
+#endif
 #if 64 % ESZ == 0
       ASSERT(a[2] + ESZ <= b[2] || b[2] + ESZ <= a[2], "distinct (item,row) of a multi-column block do not overlap");
 #endif
